@@ -43,6 +43,7 @@ type Model struct {
 	Why   string          // first rejection reason of the last evaluation
 	// MinSized: the program was generated with --min-sized-ints (affects nothing in TRUE mode).
 	MinSized bool
+	leaks    map[string]map[string][]leak // see mergeLeaks
 }
 
 // New builds a model from schema texts.
@@ -361,6 +362,9 @@ func (m *Model) valid(sn any, v any, p Pos) Verdict {
 		}
 	}
 	if all, ok := s["allOf"].([]any); ok {
+		if m.dev("ALLOF_MERGE_MUTATES_SHARED_DEFINITION") && len(all) > 0 {
+			all = m.leakInto(all, p.File)
+		}
 		if m.dev("ALLOF_FIRST_WINS") {
 			all = m.firstWins(all, p.File)
 		}
@@ -1084,6 +1088,145 @@ func (m *Model) firstWins(branches []any, file string) []any {
 		delete(cp, "$ref")
 		if changed {
 			m.fire("ALLOF_FIRST_WINS")
+		}
+		out[i] = cp
+	}
+	return out
+}
+
+// mergeLeaks collects, for the as-built deviation ALLOF_MERGE_MUTATES_SHARED_DEFINITION, what the merge of every allOf / anyOf
+// list of the schema files writes into shared definitions: when the first branch of a list that declares property p is a
+// same-file $ref to definition D, the merged property *is* D's property schema (a shared pointer) and the keywords later
+// branches give for p are merged into it - and stay there for every list that uses D afterwards.
+// Result: definition key (file|ref) -> property -> keyword -> value, plus the list (address of its first element) it came from.
+type leak struct {
+	kw  map[string]any
+	src *any
+}
+
+func (m *Model) mergeLeaks() map[string]map[string][]leak {
+	if m.leaks != nil {
+		return m.leaks
+	}
+	m.leaks = map[string]map[string][]leak{}
+	var walk func(v any, file string)
+	walk = func(v any, file string) {
+		switch x := v.(type) {
+		case []any:
+			for _, e := range x {
+				walk(e, file)
+			}
+		case map[string]any:
+			for _, ck := range []string{"allOf", "anyOf"} {
+				list, _ := x[ck].([]any)
+				if len(list) < 2 {
+					continue
+				}
+				first := map[string]string{} // property -> definition key of its first declarer ("" = an inline branch)
+				for _, b := range list {
+					bm, _ := b.(map[string]any)
+					key := ""
+					if ref, ok := bm["$ref"].(string); ok && strings.HasPrefix(ref, "#/") {
+						if t, _, err := m.Resolve(ref, file); err == nil {
+							bm, _ = t.(map[string]any)
+							key = file + "|" + ref
+						}
+					}
+					props, _ := bm["properties"].(map[string]any)
+					for name, ps := range props {
+						pm, _ := ps.(map[string]any)
+						fk, seen := first[name]
+						if !seen {
+							first[name] = key
+							continue
+						}
+						if fk == "" || pm == nil {
+							continue
+						}
+						// a later branch gives keywords for a property first declared by definition fk
+						t, _, _ := m.Resolve(fk[strings.IndexByte(fk, '|')+1:], file)
+						dm, _ := t.(map[string]any)
+						dprops, _ := dm["properties"].(map[string]any)
+						dp, _ := dprops[name].(map[string]any)
+						add := map[string]any{}
+						for kw, val := range pm {
+							if _, has := dp[kw]; !has && kw != "type" && kw != "description" && kw != "title" {
+								add[kw] = val
+							}
+						}
+						if len(add) > 0 {
+							if m.leaks[fk] == nil {
+								m.leaks[fk] = map[string][]leak{}
+							}
+							m.leaks[fk][name] = append(m.leaks[fk][name], leak{add, &list[0]})
+						}
+					}
+				}
+			}
+			for _, val := range x {
+				walk(val, file)
+			}
+		}
+	}
+	for f, root := range m.Files {
+		walk(root, f)
+	}
+	return m.leaks
+}
+
+// leakInto returns the allOf list with every same-file $ref branch whose definition received keywords from *another* list
+// replaced by an inline copy of the definition carrying those keywords.
+func (m *Model) leakInto(all []any, file string) []any {
+	leaks := m.mergeLeaks()
+	out := all
+	for i, b := range all {
+		bm, _ := b.(map[string]any)
+		ref, ok := bm["$ref"].(string)
+		if !ok || !strings.HasPrefix(ref, "#/") {
+			continue
+		}
+		byProp := leaks[file+"|"+ref]
+		if byProp == nil {
+			continue
+		}
+		t, _, err := m.Resolve(ref, file)
+		dm, _ := t.(map[string]any)
+		if err != nil || dm == nil {
+			continue
+		}
+		props, _ := dm["properties"].(map[string]any)
+		np := map[string]any{}
+		changed := false
+		for name, ps := range props {
+			pm, _ := ps.(map[string]any)
+			q := map[string]any{}
+			for k, v := range pm {
+				q[k] = v
+			}
+			for _, l := range byProp[name] {
+				if l.src == &all[0] {
+					continue
+				}
+				for kw, val := range l.kw {
+					if _, has := q[kw]; !has {
+						q[kw] = val
+						changed = true
+					}
+				}
+			}
+			np[name] = q
+		}
+		if !changed {
+			continue
+		}
+		m.fire("ALLOF_MERGE_MUTATES_SHARED_DEFINITION")
+		cp := map[string]any{}
+		for k, v := range dm {
+			cp[k] = v
+		}
+		cp["properties"] = np
+		if len(out) > 0 && &out[0] == &all[0] {
+			out = append([]any(nil), all...)
 		}
 		out[i] = cp
 	}
